@@ -15,6 +15,7 @@ cd "$WT" || exit 2
 timeout 300 /venv/bin/python demo.py >/tmp/wt/val/$NAME.clean.log 2>&1; CLEAN=$?
 git apply "$SRC/patch.diff" || { echo "patch does not apply"; git -C /repo worktree remove --force "$WT"; exit 2; }
 timeout 300 /venv/bin/python demo.py >/tmp/wt/val/$NAME.patched.log 2>&1; PATCHED=$?
+rm -f "$WT/demo.py"   # the suite collects doctests from every module in the tree: the demo must not be one of them
 BASE=$(unshare -n sh -c "ip link set lo up; /verif/tools/baseline_check.py $WT" 2>&1 | head -3)
 cd /; git -C /repo worktree remove --force "$WT"
 echo "$NAME demo_clean_exit=$CLEAN demo_patched_exit=$PATCHED baseline: $BASE"
